@@ -557,6 +557,19 @@ func runC01(r *Result, d *drv.Driver, tier string, seed int64, replay string) {
 				re, _, _ := realEncode(o.target.Interface())
 				rts[i].reenc = re
 				rts[i].ok = true
+				// "bytes written by Encode, when handed to Decode" - through whatever reader: one byte at a time, in random pieces
+				// with empty reads in between; the value decoded is the same
+				for _, mode := range []string{"onebyte", "chunks"} {
+					if i%3 != 0 && mode == "chunks" {
+						continue
+					}
+					of := realDecode(types[c.typ], data, mode, io.EOF, false, g.R)
+					r.Stats["roundtrip-through-fragmenting-reader"]++
+					if of.class != "ok" || of.value != o.value {
+						r.find(Finding{Kind: "violation", What: "Decode(Encode(v)) differs from v when the bytes reach Decode through a reader that delivers them " + map[string]string{"onebyte": "one at a time", "chunks": "in random pieces"}[mode] + " (type " + c.typ + ")",
+							Input: map[string]string{"type": c.typ, "value": srcs[i], "bytes": hx(data)}, Expect: o.value, Actual: of.class + " " + of.value})
+					}
+				}
 			}
 			lines = append(lines, fmt.Sprintf("dec %s eof %s", c.typ, hx(data)))
 		}
